@@ -20,6 +20,7 @@ from sc3.base import builtins as bi
 from sc3.base.stream import routine
 from sc3.base.clock import TempoClock, SystemClock
 from sc3.synth.server import Server
+from sc3.synth.node import Group, Synth
 from sc3.synth.synthdef import SynthDef
 from sc3.synth.synthdesc import SynthDescLib
 from sc3.synth.ugens import Out, SinOsc, DC
@@ -92,6 +93,7 @@ def dec(v):
     if k == 'S': return str(v[1])
     if k == 'B': return bool(v[1])
     if k == 'N': return None
+    if k == 'G': return (Group if v[2] == 'group' else Synth).basic_new(*(([Server.default, int(v[1])]) if v[2] == 'group' else ['c14a', Server.default, int(v[1])]))
     if k == 'P': return [x for kk, vv in v[1] for x in (kk, dec(vv))]      # a msg_params list given by the user
     if k == 'BIG': return 1e6
     if k == 'SC': return dec_scale(v[1])
